@@ -131,3 +131,43 @@ func VerifH_C20_BusReach() {
 	vCover("end")
 	vAssert(!ok, "reach-twin")
 }
+
+// VerifH_C16_BusThreads — the real bus with its real goroutine (NewChannelBus starts handleChannel) used from several
+// goroutines at once: two publishers, optionally a goroutine that unsubscribes the subscriber, then Close. Every
+// schedule within the bound: no deadlock, no data race, no panic (no send on a closed subscription), and a subscriber
+// that stays subscribed receives every published message exactly once.
+// conf: unsub (0/1), preempt
+func VerifH_C16_BusThreads() {
+	bus := NewChannelBus(4, 4)
+	sub, err := bus.Subscribe(UpdateName)
+	vAssert(err == nil, "subscribe-no-error")
+	if err != nil {
+		return
+	}
+	unsub := vConfInt("unsub") != 0
+	fns := []func(){
+		func() { bus.Publish(NewMessage(UpdateName, 1)) },
+		func() { bus.Publish(NewMessage(UpdateName, 2)) },
+	}
+	if unsub {
+		fns = append(fns, func() { bus.Unsubscribe(sub) })
+	}
+	vRunThreads(fns...)
+	bus.Close()
+	vCover("closed")
+	var got [3]int
+	n := 0
+	for m := range sub.Message() {
+		n++
+		if v, ok := m.Data.(int); ok && v >= 1 && v <= 2 {
+			got[v]++
+		} else {
+			vFail("subscriber-receives-only-published-messages")
+		}
+	}
+	vAssert(got[1] <= 1 && got[2] <= 1, "each-message-at-most-once")
+	if !unsub {
+		vAssert(got[1] == 1 && got[2] == 1, "subscriber-receives-every-message-exactly-once")
+	}
+	vObserve("received-all-when-subscribed", unsub || n == 2)
+}
